@@ -295,6 +295,66 @@ fn random_seq(rng: &mut Rng, len: usize) -> Vec<Op> {
     ops
 }
 
+/// Waves: the queue grows to hundreds or thousands of live entries, is drained
+/// completely (by pulls, or by extracting through live keys), and is filled
+/// again; keys issued in earlier waves are then used for extraction (they are
+/// stale: their slots have been recycled, possibly after the whole storage was
+/// emptied). Reaches the large-population and complete-drain states that short
+/// random sequences never visit.
+fn wave_seq(rng: &mut Rng, max_wave: usize) -> Vec<Op> {
+    let key_space = *rng.pick(&[2u32, 3, 1000]);
+    let mut ops = Vec::new();
+    let mut issued = 0usize;
+    let mut wave_starts: Vec<(usize, usize)> = Vec::new();
+    let waves = rng.range(2, 4);
+    for _ in 0..waves {
+        let n = (*rng.pick(&[3usize, 40, 300, 1030, 1100, 2500])).min(max_wave);
+        let first = issued;
+        for _ in 0..n {
+            ops.push(Op::Insert(rng.below(key_space as u64) as u32));
+            issued += 1;
+        }
+        wave_starts.push((first, n));
+        // Stale extractions through keys of earlier waves, interleaved with
+        // live ones of the current wave.
+        for _ in 0..rng.range(0, 12) {
+            if wave_starts.len() > 1 && rng.chance(2, 3) {
+                let (f0, n0) = wave_starts[rng.usize(wave_starts.len() - 1)];
+                ops.push(Op::Extract(f0 + rng.usize(n0.min(8))));
+            } else {
+                ops.push(Op::Extract(first + rng.usize(n)));
+            }
+        }
+        // Complete drain (a few pulls more than needed).
+        if rng.chance(4, 5) {
+            if rng.chance(1, 3) {
+                for i in 0..n {
+                    ops.push(Op::Extract(first + i));
+                }
+            }
+            for _ in 0..n + 2 {
+                ops.push(Op::Pull);
+            }
+            ops.push(Op::Peek);
+        }
+    }
+    // Final small wave probed through every generation of keys.
+    for _ in 0..rng.range(1, 6) {
+        ops.push(Op::Insert(rng.below(key_space as u64) as u32));
+        issued += 1;
+    }
+    for (f0, n0) in &wave_starts {
+        for i in 0..(*n0).min(6) {
+            ops.push(Op::Extract(f0 + i));
+        }
+    }
+    for _ in 0..8 {
+        ops.push(Op::Pull);
+    }
+    let _ = issued;
+    ops
+}
+
 pub fn run(opts: &Opts) -> Report {
     let mut rep = Report::new("C20");
     let part = opts.part.clone();
@@ -325,7 +385,11 @@ pub fn run(opts: &Opts) -> Report {
                 continue;
             }
             let mut rng = Rng::new(h2(opts.seed, 0xC20_0000 + c));
-            let ops = random_seq(&mut rng, len);
+            // One case in four is a wave sequence (large populations, complete drains).
+            let ops = if c % 4 == 3 { wave_seq(&mut rng, if cfg!(miri) { 40 } else { 4000 }) } else { random_seq(&mut rng, len) };
+            if c % 4 == 3 {
+                rep.count("wave_sequences", 1);
+            }
             let res = run_seq(&ops);
             record(&mut rep, opts, "random", c, &ops, res);
         }
